@@ -139,6 +139,32 @@ def run(ctx):
                 extra = [nm for nm in names if nm not in ("collect", "filter_map", "values", "iter", "into_iter", "deref")]
                 ok = len(fm) == 1 and fm[0]["args"][1].get("fn") == "addr::weak_sender::WeakSender::<M>::upgrade" and "values" in names and not extra
                 ctx.require(ok, "R09.3", "subscriber-set", "the subscribers of a publication must be the live entries of the table: values → filter_map(upgrade) → collect, got %s" % names, fn=co["def"], site=t["l"], detail=names)
+    # R09.5 who touches the table; pruning keeps exactly the live entries
+    from tywalk import field_accesses
+    touch = {}
+    for g in fx.d["fns"]:
+        gb = ctx.body(fx, g)
+        for bi, where, name, place in field_accesses(fx, g, gb, "broker::Broker"):
+            if name == "subscribers":
+                touch.setdefault(g.get("root", g["def"]), []).append(gb.term(bi)["l"])
+    ok_roots = [r for r in touch if (fx.fn(r) or {}).get("impl_self", "").startswith("broker::Broker<") and (fx.fn(r) or {}).get("impl_trait_def") in ("handler::Handler", "core::default::Default")]
+    ctx.require(sorted(ok_roots) == sorted(touch) and len(touch) >= 3, "R09.5", "table-writers", "the subscriber table is touched outside the broker's own handlers: %s" % sorted(set(touch) - set(ok_roots)), detail=sorted(touch))
+    for g in fx.d["fns"]:
+        gb = ctx.body(fx, g)
+        for bi, t in gb.normal_calls():
+            if (t.get("callee") or "").startswith("std::collections::hash::map::") and (t.get("callee") or "").endswith("::retain") and "addr::weak_sender::WeakSender<" in (t.get("self_ty") or ""):
+                okp = False
+                for o in gb.origins(t["args"][1]):
+                    if o.kind == "agg":
+                        cdef = gb.blocks[o.site[0]]["s"][o.site[1]]["r"].get("def")
+                        c = fx.fn(cdef)
+                        if c:
+                            cb = ctx.body(fx, c)
+                            calls = [x for _, x in cb.normal_calls()]
+                            names = [(x.get("callee") or "").split("::")[-1] for x in calls]
+                            nots = any(st["k"] == "assign" and st["r"]["k"] == "un" and st["r"].get("op") == "Not" for blk in cb.blocks for st in blk["s"])
+                            okp = names == ["upgrade", "is_some"] and not nots
+                ctx.require(okp, "R09.5", "prune-keeps-live", "pruning must keep exactly the subscribers that can still be upgraded", fn=g["def"], site=t["l"])
     # R09.4 entry points
     entries = {
         "broker::Broker::<T>::publish": ("broker::<impl addr::Addr<broker::Broker<T>>>::publish", None),
